@@ -440,6 +440,13 @@ def m_bool_then(ip, st, fr, t, args):
     cond = c.bits[0]
     if name == "then_some":
         return [(cond, Enum(SOME, [args[1]])), (bv.M.NOT(cond), Enum(NONE, []))]
+    if name == "then":
+        t2 = dict(t)
+        t2["_argvals"] = args
+        r = _closure_call(ip, st, t2, 1, [], lambda s, r_: Enum(SOME, [r_]))
+        if r is None:
+            return None
+        return [("call", cond, r[1], r[2], r[3], None), (bv.M.NOT(cond), Enum(NONE, []))]
     return None
 
 
@@ -759,7 +766,7 @@ def standard_models():
         (lambda p, f: p in ("std::cmp::PartialEq::ne", "core::cmp::PartialEq::ne"), m_partial_ne),
         (lambda p, f: p in ("std::ops::RangeInclusive::<Idx>::new", "core::ops::RangeInclusive::<Idx>::new"), m_rangeincl_new),
         (lambda p, f: p in ("std::ops::RangeInclusive::<Idx>::contains", "core::ops::RangeInclusive::<Idx>::contains", "std::ops::Range::<Idx>::contains", "core::ops::Range::<Idx>::contains"), m_range_contains),
-        (lambda p, f: p in ("core::bool::<impl bool>::then_some", "std::bool::<impl bool>::then_some"), m_bool_then),
+        (lambda p, f: p in ("core::bool::<impl bool>::then_some", "std::bool::<impl bool>::then_some", "core::bool::<impl bool>::then", "std::bool::<impl bool>::then"), m_bool_then),
         (lambda p, f: (p or "").startswith("core::fmt::rt::") or (p or "").startswith("std::fmt::Arguments") or (p or "").startswith("core::fmt::Arguments") or (p or "").startswith("std::fmt::rt::"), m_opaque("fmt")),
         (lambda p, f: (p or "").startswith("anyhow::__private::"), m_anyhow),
         (lambda p, f: (p or "").startswith("anyhow::context::<impl anyhow::Context<") and ((p or "").endswith("::with_context") or (p or "").endswith("::context")), m_identity0),
